@@ -335,6 +335,11 @@ func (g *Gen) Config() string {
 			b.WriteString("$(" + g.pick(MacroNames) + ")")
 			if g.weird(20, 25) {
 				b.WriteString(g.pick([]string{" ", " x", "", " = "}))
+			} else if r.Chance(15) {
+				// a macro made only of (possibly undefined) macro references: may have no value at all
+				b.WriteString(" = $(" + g.pick(MacroNames) + ")")
+				b.WriteString(g.nl())
+				continue
 			} else {
 				b.WriteString(" = " + g.pick(words))
 			}
